@@ -34,6 +34,8 @@ import (
 
 var trace []string
 
+var caseNo int
+
 func hx(s string) string {
 	if s == "" {
 		return "-"
@@ -149,6 +151,22 @@ func run(w []string) (res string, ok bool) {
 				return "", false
 			}
 			iv = append(iv, int(v))
+		}
+	}
+	// Every other case, a string argument that occurs inside another argument shares that argument's storage (a
+	// caller comparing key[:k] with key, or a key with itself): the instances are about the strings' contents.
+	caseNo++
+	if caseNo%2 == 1 {
+		for i := range sv {
+			for j := range sv {
+				if i == j || len(sv[i]) > len(sv[j]) || (len(sv[i]) == len(sv[j]) && i < j) {
+					continue
+				}
+				if p := strings.Index(sv[j], sv[i]); p >= 0 {
+					sv[i] = sv[j][p : p+len(sv[i])]
+					break
+				}
+			}
 		}
 	}
 	n := len(iv) + len(sv)
